@@ -786,6 +786,22 @@ def decide(pid, tier, seed):
                     f.write(f"CONFIG  {cfg}\nCASE    {bad}\nMONITOR the implementation hangs or crashes on this case\n\n")
             shown = 0
             order = sorted(found, key=lambda d: len(d[2])) + [d for d in diffs if not d[5]]
+            # the shortest failing input, minimised: operations are dropped greedily while the property's monitor still fails on the implementation
+            if found and mon is not None:
+                (s0, c0, case0, _, _, _) = sorted(found, key=lambda d: len(d[2]))[0]
+                k0 = next((k for (n_, c_, k, _) in suites if n_ == s0 and c_ == c0), None)
+                if k0 == "scan" and c0 in bins_cache and bins_cache[c0][0]:
+                    def still_fails(cand):
+                        out, _ = run_impl(bins_cache[c0][0], "scan", [cand])
+                        return bool(out) and bool(mon(Case(cand), out[0].split(" ")[1:]))
+                    try:
+                        small = shrink(case0, still_fails)
+                        if small != case0:
+                            out, _ = run_impl(bins_cache[c0][0], "scan", [small])
+                            f.write(f"SHRUNK  from suite {s0}, config {c0}: the same monitor failure on fewer operations\nCASE    {small}\nIMPL    {out[0]}\n"
+                                    f"MONITOR {mon(Case(small), out[0].split(' ')[1:])}\n\n")
+                    except Exception as ex:
+                        f.write(f"# shrinking failed: {ex!r}\n")
             for (sname, cfg, case, a, b, why) in order[:25]:
                 f.write(f"SUITE   {sname} (projection {projname})\nCONFIG  {cfg}\nCASE    {case}\nIMPL    {a}\n")
                 if b is not None:
